@@ -597,6 +597,8 @@ class Interp:
             return self.models[cls](self, list(args), kwargs)
         if isinstance(cls, type) and issubclass(cls, BaseException):
             return ExcVal(cls, args)
+        if isinstance(cls, type) and issubclass(cls, tuple) and hasattr(cls, "_fields"):
+            return self.native(cls, args, kwargs)      # NamedTuple: structural, never inspects the field values
         mod = getattr(cls, "__module__", "") or ""
         if mod.startswith(INTERPRET_PREFIXES) and not (cls in self.native_ok):
             # interpret __init__ on a fresh heap object
